@@ -1650,6 +1650,19 @@ class Kconfig(object):
                         sym._loaded_as_default = False
                     sym.present_in_current_sdkconfig = True
 
+            if replace:
+                # If we're replacing the configuration, unset the symbols that didn't get set. This must happen before
+                # the default-marked entries are resolved: they are compared against the values of the new
+                # configuration, not against user values the replaced configuration left behind.
+
+                for sym in self.unique_defined_syms:
+                    if not sym._was_set:
+                        sym.unset_value()
+
+                for choice in self.unique_choices:
+                    if not choice._was_set:
+                        choice.unset_value()
+
             for sym in symbols_with_default_values:
                 sym.resolve_defaults()
 
@@ -1662,18 +1675,6 @@ class Kconfig(object):
 
             for choice in self.unique_choices:
                 choice._invalidate()
-
-        if replace:
-            # If we're replacing the configuration, unset the symbols that
-            # didn't get set
-
-            for sym in self.unique_defined_syms:
-                if not sym._was_set:
-                    sym.unset_value()
-
-            for choice in self.unique_choices:
-                if not choice._was_set:
-                    choice.unset_value()
 
         for sym in promptless_with_default_values:
             if sym.str_value != sym._sdkconfig_value and sym.name not in self.promptless_no_warn:
